@@ -49,6 +49,11 @@ def verify_one(target, timeout_ms=20000, cross=False, only_labels=None):
             out["wall_s"] = time.time() - t0
             return out
         out["cover"] = dict(eng.cover)
+        out["canaries"] = dict(eng.canaries)
+        vac = [k for k, v in eng.canaries.items() if not v]
+        if vac:
+            out["status"] = "error"
+            out["error"] = "vacuity guard: `False` is provable (or satisfiability unknown) at %s - contradictory assumptions?" % vac
         st = dict(eng.stats)
         st["opaque_calls"] = sorted(st.get("opaque_calls", []))
         st["havocs"] = [list(map(str, h)) for h in st.get("havocs", [])][:20]
@@ -74,7 +79,9 @@ def verify_one(target, timeout_ms=20000, cross=False, only_labels=None):
                 d["smt2_tail"] = S.smt2_head(ob, 1500)
             out["obligations"].append(d)
         # vacuity: zero obligations / no feasible exit
-        if not out["obligations"]:
+        if vac:
+            pass
+        elif not out["obligations"]:
             out["status"] = "error"
             out["error"] = "zero obligations generated (vacuity guard)"
         if not (eng.cover.get("normal-exit") or any(k.startswith("raise-") for k in eng.cover)):
